@@ -575,10 +575,11 @@ func (s *Store) Leftovers(target *Config) []string {
 // one after the other; the lock only guards against the monitor reading
 // while a request is served).
 type Backend struct {
-	mu       sync.Mutex
-	S        *Store
-	Rejected []string // verdicts of refused requests
-	Writes   []string // "METHOD path" of every write request
+	mu         sync.Mutex
+	S          *Store
+	Rejected   []string // verdicts of refused requests
+	RejectedAt []int    // index into Writes of each refused request
+	Writes     []string // "METHOD path" of every write request
 }
 
 func (b *Backend) PolicyIDs() []string {
@@ -619,6 +620,7 @@ func (b *Backend) Apply(method, path string, q url.Values, body []byte) string {
 	v := b.S.Apply(method, path, q, body)
 	if strings.HasPrefix(v, "rejected") {
 		b.Rejected = append(b.Rejected, method+" "+path+": "+v)
+		b.RejectedAt = append(b.RejectedAt, len(b.Writes)-1)
 	}
 	return v
 }
